@@ -23,8 +23,11 @@ def speciesRate (curve : Rat → Rat) (rated P : Rat) : Rat := curve (load rated
 def gensetEnginePower (ηgen inv : Rat → Rat) (ratedGen P : Rat) : Rat := inFromOut ηgen inv ratedGen P
 
 /-- Engine power of a geared main engine: shaft power divided by the gearbox efficiency at the
-load relative to the main engine's rating. -/
-def gearedEnginePower (ηgb : Rat → Rat) (ratedME P : Rat) : Rat := P / effHat ηgb (load ratedME P)
+gearbox's own load (relative to the gearbox's rating, after D35). -/
+def gearedEnginePower (ηgb : Rat → Rat) (ratedGB P : Rat) : Rat := P / effHat ηgb (load ratedGB P)
+
+/-- As found (D35) the gearbox characteristic was read at the load relative to the main engine's rating. -/
+def gearedEnginePowerLegacy (ηgb : Rat → Rat) (ratedME P : Rat) : Rat := P / effHat ηgb (load ratedME P)
 
 /-- Fuel-cell module: fuel power / lower heating value, `P_in / LHV [MJ/g] / 1e6` kg/s. -/
 def fuelCellFuel (η inv : Rat → Rat) (rated lhv P : Rat) : Rat := inFromOut η inv rated P / lhv / 1000000
